@@ -13,6 +13,7 @@ mod wal_discovery;
 mod ring;
 mod segment;
 mod flush;
+mod flush_crash;
 mod executor;
 mod ttl_ops;
 mod conn;
@@ -78,6 +79,7 @@ fn main() {
         "ring" => ring::search(&pid, &oid, seed),
         "segment" => segment::search(&pid, &oid, seed),
         "flush" => flush::search(&pid, &oid, seed),
+        "flush_crash" => flush_crash::search(&pid, &oid, seed),
         "expiry" => executor::search_expiry(&pid, &oid, seed),
         "incr_frame" => executor::search_incr(&pid, &oid, seed),
         "ttl_ops" => ttl_ops::search(&pid, &oid, seed),
